@@ -1,10 +1,10 @@
 CONSTANTS
-  Workers <- Workers_wany1
-  NTs <- NTs_wany1
-  ThreadNames <- Threads_wany1
+  Workers <- MCWorkers
+  NTs <- MCNTs
+  ThreadNames <- MCThreads
   WyFix = TRUE
   AllowSpurious = FALSE
-INIT Init_wany1
+INIT MCInit
 NEXT Next
 CHECK_DEADLOCK TRUE
 INVARIANTS TypeOK NoBad FuncOnce ReadyImpliesRan GetsAgree DeallocOnce RefsSane ThenAfterReady TsWaitImpliesReady CountersSane AtEnd WhenAllReady WhenAnyReady CombFOnce
